@@ -332,14 +332,14 @@ def oracle(e_before_snap, slots_before, filters_before, e, col, ren_pairs, exc, 
 # ---------------------------------------------------------------------------------------------
 # Coq form
 
+FTOKENS = {}
+
+
 def enc_entry(v):
   if isinstance(v, list):
     return '(FList %s)' % enc_list(v)
-  if isinstance(v, str):
-    return '(FStr %s)' % core.strlit(v)
-  if isinstance(v, dict):
-    return '(FDict %s)' % core.coq_list([core.strlit(k) for k in v])
-  return 'FAtom'
+  tok = FTOKENS.setdefault(json.dumps(v, sort_keys=True), len(FTOKENS))
+  return '(FOther %s)' % core.zlit(tok)
 
 
 def enc_filter(text):
@@ -365,7 +365,7 @@ def enc_outcome(e, names, filters_before, exc):
       fl.append('None')
     else:
       j = json.loads(ta)
-      fl.append('(Some %s)' % core.coq_list(['(%s, %s)' % (core.strlit(k), enc_list(v)) for k, v in j.items()]))
+      fl.append('(Some %s)' % core.coq_list(['(%s, %s)' % (core.strlit(k), enc_entry(v)) for k, v in j.items()]))
   return '(Ok (%s, %s))' % (enc_cols(slots(e, 'T'), names), core.coq_list(fl))
 
 
